@@ -9,6 +9,7 @@ package main
 import (
 	"bufio"
 	"bytes"
+	"context"
 	"fmt"
 	"io"
 	"net"
@@ -346,6 +347,44 @@ done:
 				e.Violation("clear-ignored-by-detector", fmt.Sprintf("shutdown clear message {%v}: detector still holds its sessions (%s)", s2d, resp), map[string]any{"case": "clear"})
 			}
 			e.Nontrivial("clear")
+		}
+	}
+	// the same at the end of a station's life, in main()'s order: the ingest pipeline has run with its own context, that
+	// context is cancelled, the pipeline has wound down - and only then Cleanup() speaks to the detector
+	{
+		e.Case()
+		rm := vfix.Manager(nil, sel, &vfix.Tester{}, vfix.AllWrapping, nil)
+		ctx, cancel := context.WithCancel(context.Background())
+		regChan := make(chan interface{}, 16)
+		wg := new(sync.WaitGroup)
+		wg.Add(1)
+		go rm.HandleRegUpdates(ctx, regChan, wg)
+		si.take()
+		m := vfix.Msg{Secret: vfix.Secret(21), Transport: pb.TransportType_Min, V4: true, Gen: 1, LibVer: 4, Covert: "93.184.216.34:443", Source: pb.RegistrationSource_API, Addr: []byte{203, 0, 113, 7}}
+		regChan <- m.Bytes()
+		announced := false
+		for i := 0; i < 2000 && !announced; i++ { // synchronisation only (up to 20 s of real time), not an oracle
+			time.Sleep(10 * time.Millisecond)
+			si.mu.Lock()
+			announced = len(si.payloads) > 0
+			si.mu.Unlock()
+		}
+		cancel()
+		wg.Wait()
+		si.take()
+		rm.VerifCleanup()
+		msgs := si.take()
+		e.Out.Extra["shutdown_order_registration_announced"] = announced
+		if len(msgs) != 1 {
+			e.Violation("clear-not-sent:after-pipeline-stop", fmt.Sprintf("%d messages reached the detector channel when Cleanup() ran after the ingest pipeline's context was cancelled and the pipeline had returned (main()'s shutdown order)", len(msgs)), map[string]any{"case": "clear-after-stop"})
+		} else {
+			s2d := &pb.StationToDetector{}
+			_ = proto.Unmarshal(msgs[0], s2d)
+			resp := det.handle(s2d, 3)
+			if !bytes.HasPrefix([]byte(resp), []byte("prefill_left=0")) {
+				e.Violation("clear-ignored-by-detector", fmt.Sprintf("shutdown clear message {%v}: detector still holds its sessions (%s)", s2d, resp), map[string]any{"case": "clear-after-stop"})
+			}
+			e.Nontrivial("clear-after-stop")
 		}
 	}
 	det.in.Close()
